@@ -19,14 +19,14 @@ _INJ_WHAT = "component read back has exactly VCALENDAR > VEVENT > {UID, X-NAME[X
 CONDITIONS = (
     shards("roundtrip", "c05.py", "h_roundtrip", {"kind": [0, 1, 2, 3], "p0": list(range(16))}, timeout=300, tiers=("quick",), what=_RT_WHAT,
            bound="TEXT, URI, CAL-ADDRESS and inline values; parameter value <= 1 char (pinned per shard), value <= 2 chars, 16-char alphabet")
-    + shards("roundtrip", "c05.py", "h_roundtrip", {"kind": [0], "p0": list(range(16))}, timeout=3000, tiers=("thorough",), what=_RT_WHAT,
-             bound="TEXT values; parameter value <= 1 char (pinned per shard), value <= 3 chars, 16-char alphabet")
+    + shards("roundtrip", "c05.py", "h_roundtrip", {"kind": [0], "p0": list(range(8))}, timeout=3000, tiers=("thorough",), what=_RT_WHAT,
+             bound="TEXT values; parameter value one of the first 8 alphabet characters (backslash ; : , DQUOTE % 2 C; pinned per shard), value <= 3 chars, 16-char alphabet")
     + shards("roundtrip", "c05.py", "h_roundtrip", {"kind": [1], "p0": [0, 1, 2, 3]}, timeout=3000, tiers=("thorough",), what=_RT_WHAT,
              bound="URI values; parameter value backslash / ; / : / , (pinned per shard), value <= 3 chars, 16-char alphabet")
     + shards("inject", "c05.py", "h_inject", {"kind": [0, 1], "pq": [0, 1, 2, 3, 4]}, timeout=300, tiers=("quick",), what=_INJ_WHAT,
              bound="value <= 3 chars over {\" ; : = , a backslash}; parameter value pinned per shard")
-    + shards("inject", "c05.py", "h_inject", {"kind": [0], "pq": [0, 1, 2, 3, 4]}, timeout=3000, tiers=("thorough",), what=_INJ_WHAT,
-             bound="TEXT value <= 4 chars over {\" ; : = , a backslash}; parameter value pinned per shard")
-    + shards("inject", "c05.py", "h_inject", {"kind": [1], "pq": [0, 4]}, timeout=3000, tiers=("thorough",), what=_INJ_WHAT,
-             bound="URI value <= 4 chars over {\" ; : = , a backslash}; parameter value DQUOTE / ;b=c")
+    + shards("inject", "c05.py", "h_inject", {"kind": [0], "pq": [0, 3, 4]}, timeout=3000, tiers=("thorough",), what=_INJ_WHAT,
+             bound="TEXT value <= 4 chars over {\" ; : = , a backslash}; parameter value DQUOTE / a / ;b=c")
+    + shards("inject", "c05.py", "h_inject", {"kind": [1], "pq": [0]}, timeout=3000, tiers=("thorough",), what=_INJ_WHAT,
+             bound="URI value <= 4 chars over {\" ; : = , a backslash}; parameter value DQUOTE")
 )
